@@ -484,6 +484,32 @@ func drive(args []string) int {
 		}
 	}
 
+	// C17: a modified package-level variable is a sufficient condition for interference, not the property itself (a
+	// mutex-guarded cache would be legitimate). It is reported as a violation only together with an observed
+	// interference or a data race; alone it becomes a note in the evidence.
+	if id == "C17" {
+		confirmed := false
+		for k := range viol {
+			if strings.HasPrefix(k, "C17 data-race") || strings.HasPrefix(k, "C17 interference") || strings.HasPrefix(k, "C17 free-running-interference") || strings.HasPrefix(k, "C17 panic") {
+				confirmed = true
+			}
+		}
+		if !confirmed {
+			var notesG []string
+			for k := range viol {
+				if strings.HasPrefix(k, "C17 global-state-modified") {
+					notesG = append(notesG, k)
+					delete(viol, k)
+				}
+			}
+			if len(notesG) > 0 {
+				sort.Strings(notesG)
+				extraCov["globals_modified_without_observed_interference_or_race"] = notesG
+				fmt.Printf("NOTE: %s (no interference in any interleaving and no data race in the free-running pass: not reported as a violation)\n", strings.Join(notesG, "; "))
+			}
+		}
+	}
+
 	known := loadKnown(dir)
 	isKnown := func(key string) *knownFinding {
 		for i := range known {
